@@ -73,8 +73,8 @@ def rebinding_rule(ctx, run, rule, prefixes, minimum):
         for st in mod.tree.body:
             if not (isinstance(st, ast.Expr) and isinstance(st.value, ast.Call) and isinstance(st.value.func, ast.Name) and st.value.func.id in ("_set_attr_and_docstring", "_set_docstring", "setattr")):
                 continue
-            a = st.value.args
-            if len(a) != 3 or not isinstance(a[1], ast.Constant) or not isinstance(a[1].value, str):
+            a = prog.rebinding_args(st.value) if st.value.func.id != "setattr" else (list(st.value.args) if len(st.value.args) == 3 else None)
+            if a is None or not isinstance(a[1], ast.Constant) or not isinstance(a[1].value, str):
                 raise AnalysisError(f"{mod.name}:{st.lineno}: re-binding statement not of the form (Cls, \"name\", Base.method)")
             n += 1
             name, target = a[1].value, ast.unparse(a[2])
